@@ -5,7 +5,7 @@ Case (`c`, what the driver gets): {"k": kind, "v": value, â€¦configurationâ€¦, â
 (uuid.UUID, Enum(v), int(v), re, datetime.fromisoformat, float(v), timedelta, str(v), float(str)) are obtained here by
 calling the standard library directly â€” never through the library under test.
 """
-import math, re, sys, struct, itertools, unicodedata, uuid as _uuid, enum as _enum, datetime as _dt, decimal, fractions
+import math, re, os, sys, json, struct, subprocess, itertools, unicodedata, uuid as _uuid, enum as _enum, datetime as _dt, decimal, fractions
 
 RULE = ('structured generation per validator: every numeric bound (ints, floats incl. 2**53Â±1, denormals, 1e308, -0.0, Â±inf, NaN, bool) x '
         '{b, nextafter(b,Â±inf), bÂ±1, int(b)Â±1, Â±inf, nan, Â±10**400, bool} x include_boundary x {Min, Max}; lengths n-1, n, n+1 for '
@@ -13,11 +13,15 @@ RULE = ('structured generation per validator: every numeric bound (ints, floats 
         'look-alikes x strip; e-mail strings from a grammar with each side condition violated in turn (all whitespace classes at all '
         'positions, second @, trailing newline, empty parts, non-ASCII-alnum suffix) + seeded adversarial strings; UUID surface forms '
         'and near misses; Enum/IntEnum/StrEnum members, names, values, case variants, numbers incl. NaN/Â±inf/10**400; ISO strings; '
-        'timestamps at the datetime range limits (ints, adjacent floats, strings), NaN, Â±inf, 10**400; typed random ForEach/Composite '
+        'timestamps at the datetime range limits (ints, adjacent floats, strings), NaN, Â±inf, 10**400 - in the time zone of the machine AND, '
+        'in a child process per zone that sets TZ and calls time.tzset() before the library is imported, in the fixed-offset zones JST-9, EST5 and '
+        '<+0530>-5:30 (no tz database needed; same cases, same specification: a timestamp denotes datetime(1970, 1, 1) + its seconds in EVERY zone); '
+        'typed random ForEach/Composite '
         'trees of depth <= 3 over real and scripted leaf validators; convert_value on a value zoo x the six target types and str(x) '
         'round trips for bools, ints and floats.  non-trivial = inside the documented input domain (spec is not `na`)')
 EXHAUSTIVE = {'quick': False, 'thorough': False}
 ASSUMPTIONS = [
+    'time zones: the unix-timestamp cases run under the zone of the machine and under the fixed-offset zones JST-9, EST5, <+0530>-5:30 (child process, TZ set before the library is imported); zones with DST transitions (they need a tz database) are not exercised',
     'inputs outside a validator\'s documented input domain (Min against a non-number, Email on a non-str, a leaf validator that raises a foreign exception) are outside the quantifier; they are run and reported as tag `â€¦/na` only',
     'str(value) of the values used is what the harness obtains by calling str() itself; objects whose __str__ raises something other than ValueError are not generated (ints beyond sys.get_int_max_str_digits(), whose str() raises ValueError, are)',
     'strings used with convert_value are such that str.lower() acts character by character (no final-sigma context)',
@@ -301,7 +305,10 @@ def c_iso(v):
     return mk('iso', v, o=orc(lambda: _dt.datetime.fromisoformat(val), enc))
 
 
-def c_unix(v):
+TZ_ZONES = ['JST-9', 'EST5', '<+0530>-5:30']        # POSIX TZ strings with a fixed offset: understood without a tz database
+
+
+def c_unix(v, tz=None):
     val = dec(v)
     if isinstance(val, (int, float, str)):
         fl = orc(lambda: float(val))
@@ -313,7 +320,7 @@ def c_unix(v):
         fl = ['ok', enc(x)]
     else:
         td = ['raises', 'ValueError']       # never consulted
-    return mk('unix', v, fl=fl, td=td)
+    return mk('unix', v, {'tz': tz} if tz else None, fl=fl, td=td)
 
 
 def collect_strs(e, out):
@@ -619,6 +626,14 @@ def gen_unix(rng, tier):
         else:
             v = str(rng.randint(-10 ** 13, 10 ** 13))
         out.append(c_unix(enc(v)))
+    # the same stream in other time zones (run in a child process per zone, see run_impl): the directed values and a part of the random ones
+    base = list(out)
+    n_tz = 150 if tier == 'quick' else 1500
+    directed = len(vals) + len(strs) + 5
+    for z, zone in enumerate(TZ_ZONES):
+        for case in base[:directed] + base[directed + z::len(TZ_ZONES)][:n_tz]:
+            c = dict(case['c'])
+            out.append({'m': 'validators', 'c': c, 'x': {'tz': zone}})
     return out
 
 
@@ -825,7 +840,44 @@ def build_tree(t, leaves, V, single=False):
     return V['Composite'](kids)
 
 
+TZ_CHILD = ("import os, sys, time, json\n"
+            "time.tzset()                      # TZ comes with the environment of this process; nothing of the library is imported yet\n"
+            "import datetime\n"
+            "assert not any(m == 'pedantic' or m.startswith('pedantic.') for m in sys.modules)\n"
+            "shift = (datetime.datetime.fromtimestamp(0) - datetime.datetime(1970, 1, 1)).total_seconds()\n"
+            "from props import C14\n"
+            "cases = json.load(sys.stdin)\n"
+            "json.dump({'shift': shift, 'out': C14.run_local(cases)}, sys.stdout)\n")
+
+
+def run_in_zone(zone, cases):
+    """run the cases in a child process whose local time zone is `zone` from its very start (TZ in its environment, time.tzset()
+    before pedantic is imported - so that import-time computations of the library see the zone too)"""
+    env = dict(os.environ, TZ=zone)
+    p = subprocess.run([sys.executable, '-B', '-c', TZ_CHILD], input=json.dumps(cases), capture_output=True, text=True, env=env, timeout=600)
+    if p.returncode != 0:
+        raise RuntimeError(f'child process for TZ={zone} failed: {p.stderr[-2000:]}')
+    res = json.loads(p.stdout)
+    if res['shift'] == 0 or len(res['out']) != len(cases):
+        raise RuntimeError(f'child process for TZ={zone}: the zone is not in effect (local epoch shift {res["shift"]} s) or results are missing')
+    return res['out']
+
+
 def run_impl(cases):
+    """cases with x.tz run in a child process per zone, everything else in this process (the machine's zone)"""
+    out = [None] * len(cases)
+    by_zone = {}
+    for i, case in enumerate(cases):
+        by_zone.setdefault((case.get('x') or {}).get('tz'), []).append(i)
+    for zone, idx in by_zone.items():
+        sub = [cases[i] for i in idx]
+        res = run_local(sub) if zone is None else run_in_zone(zone, [{'m': c['m'], 'c': c['c'], 'x': {}} for c in sub])
+        for i, r in zip(idx, res):
+            out[i] = r
+    return out
+
+
+def run_local(cases):
     import pedantic.decorators.fn_deco_validate.validators as VM
     from pedantic.decorators.fn_deco_validate.validators import Validator
     from pedantic.decorators.fn_deco_validate.convert_value import convert_value
@@ -953,6 +1005,11 @@ def judge(case, impl, model):
         corr, why = False, 'harness/driver inconsistency: ' + m['exc']
     finding = reg if (pfail and reg and same_out) else None
     tag = f"{k}/{sk}/{impl['out'] if impl['out'] == 'ok' else impl['exc']}"
+    tz = (case.get('x') or {}).get('tz')
+    if tz:
+        tag += '@TZ=' + tz
+        if pfail:
+            pfail += f' (process running with TZ={tz})'
     if k == 'convert':
         tag = f"convert:{c['t']}/{'rt/' if (case.get('x') or {}).get('rt') is not None else ''}{impl['out'] if impl['out'] == 'ok' else impl['exc']}"
     return {'corr': corr, 'pfail': pfail, 'finding': finding, 'nontrivial': sk != 'na', 'tag': tag, 'why': why}
@@ -963,4 +1020,9 @@ def extra_coverage(results):
     kinds = {}
     for (c, _, _, _) in results:
         kinds[c['c']['k']] = kinds.get(c['c']['k'], 0) + 1
-    return {'outside_documented_domain': outside, 'cases_per_kind': kinds}
+    zones = {}
+    for (c, _, _, _) in results:
+        z = (c.get('x') or {}).get('tz')
+        if z:
+            zones[z] = zones.get(z, 0) + 1
+    return {'outside_documented_domain': outside, 'cases_per_kind': kinds, 'unix_cases_run_in_a_child_process_per_time_zone': zones}
